@@ -38,6 +38,12 @@ func (e *Exec) callCommon(fr *frame, st *State, c *ssa.CallCommon, instr ssa.Ins
 		}
 		return e.invoke(fr, st, c, recv, args, resType, pos)
 	}
+	fr.curCallArg0 = nil
+	if len(c.Args) > 0 {
+		if mi, ok := c.Args[0].(*ssa.MakeInterface); ok {
+			fr.curCallArg0 = mi.X
+		}
+	}
 	switch v := c.Value.(type) {
 	case *ssa.Builtin:
 		return e.builtin(fr, st, v, c, args, pos)
@@ -148,6 +154,40 @@ func ifaceKeyOf(c *ssa.CallCommon) string {
 	return ""
 }
 
+// conOf: the contract that governs a call of fn made from frame fr. Contracts on functions of
+// another package (stdlib, dependencies) are assumptions local to the package that states them.
+func (e *Exec) conOf(fr *frame, fn *ssa.Function) *Contract {
+	if c := e.W.Contracts[fn]; c != nil {
+		return c
+	}
+	m := e.W.ExtContracts[fn]
+	if m == nil || fr == nil || fr.fn == nil {
+		return nil
+	}
+	f := fr.fn
+	for f.Parent() != nil {
+		f = f.Parent()
+	}
+	if o := f.Origin(); o != nil {
+		f = o
+	}
+	if f.Pkg == nil {
+		return nil
+	}
+	p := f.Pkg.Pkg.Path()
+	if c := m[p]; c != nil {
+		return c
+	}
+	// spec code / harnesses of the stating package run through inlined frames of other packages:
+	// fall back to the harness on top of the stack
+	if len(e.hstack) > 0 {
+		if c := m[e.hstack[0].con.Pkg]; c != nil {
+			return c
+		}
+	}
+	return nil
+}
+
 // callStatic: intrinsic model, contract, inline or havoc.
 func (e *Exec) callStatic(fr *frame, st *State, fn *ssa.Function, args, bindings []*smt.Term, resType types.Type, pos token.Pos) *smt.Term {
 	name := fn.String()
@@ -170,7 +210,7 @@ func (e *Exec) callStatic(fr *frame, st *State, fn *ssa.Function, args, bindings
 	if h, ok := intrinsics[name]; ok {
 		return h(e, st, fn, args, resType, pos)
 	}
-	if stdInline(name) && len(fn.Blocks) > 0 {
+	if c := e.conOf(fr, fn); stdInline(name) && len(fn.Blocks) > 0 && (c == nil || c.Inline || e.spec != 0) {
 		res, out, err := e.tryInline(st, fn, args, bindings, nil)
 		if err == nil {
 			*st = *out
@@ -178,7 +218,7 @@ func (e *Exec) callStatic(fr *frame, st *State, fn *ssa.Function, args, bindings
 		}
 		e.W.Note(fmt.Sprintf("stdlib %s could not be executed (%v)", name, err))
 	}
-	if pureExternal(name) && e.W.Contracts[fn] == nil {
+	if pureExternal(name) && e.conOf(fr, fn) == nil {
 		e.W.Note("assumed pure (no heap effect, unconstrained result): " + name)
 		if e.inQuant > 0 {
 			// deterministic function of its arguments inside quantified spec code
@@ -196,11 +236,11 @@ func (e *Exec) callStatic(fr *frame, st *State, fn *ssa.Function, args, bindings
 		e.bumpAlloc(st)
 		return e.freshVal(st, "ext", resType)
 	}
-	if con := e.W.Contracts[fn]; con != nil && !con.Inline && e.spec == 0 {
+	if con := e.conOf(fr, fn); con != nil && !con.Inline && e.spec == 0 {
 		return e.applyContract(st, con, args, resType, pos)
 	}
 	// a contract written for another instantiation of the same generic function
-	if o := fn.Origin(); o != nil && e.W.Contracts[fn] == nil && e.spec == 0 {
+	if o := fn.Origin(); o != nil && e.conOf(fr, fn) == nil && e.spec == 0 {
 		if tgt := e.W.ByOrigin[o]; tgt != nil && tgt != fn {
 			con := e.W.Contracts[tgt]
 			ta, tb := tgt.TypeArgs(), fn.TypeArgs()
@@ -219,7 +259,7 @@ func (e *Exec) callStatic(fr *frame, st *State, fn *ssa.Function, args, bindings
 			}
 		}
 	}
-	if con := e.W.Contracts[fn]; con != nil && !con.Inline && e.spec > 0 && con.Trusted && !e.lemmaMode {
+	if con := e.conOf(fr, fn); con != nil && !con.Inline && e.spec > 0 && con.Trusted && !e.lemmaMode {
 		return e.applyContract(st, con, args, resType, pos)
 	}
 	inRepo := fn.Pkg != nil && strings.HasPrefix(fn.Pkg.Pkg.Path(), ModulePath) || fn.Pkg == nil && fn.Parent() != nil ||
@@ -228,7 +268,7 @@ func (e *Exec) callStatic(fr *frame, st *State, fn *ssa.Function, args, bindings
 		inRepo = true // wrappers, bound methods, instantiations
 	}
 	if len(fn.Blocks) > 0 && (inRepo || e.spec > 0) && len(e.frames) < e.MaxInline+e.specDepthBonus() {
-		res, out, err := e.tryInline(st, fn, args, bindings, e.W.Contracts[fn])
+		res, out, err := e.tryInline(st, fn, args, bindings, e.conOf(fr, fn))
 		if err == nil {
 			*st = *out
 			return res
@@ -568,6 +608,37 @@ func (e *Exec) verifIntrinsic(fr *frame, st *State, name string, fn *ssa.Functio
 		key := "GH|" + args[0].Name
 		hs := smt.Array(AddrS, smt.Bool)
 		return smt.Select(e.heap(st, key, hs), IVal(args[1]))
+	case "verif_field_int", "verif_field_len":
+		// ghost access to an unexported field of a struct of another package: (pointer, field name)
+		pa := c0Arg(fr, 0)
+		if pa == nil {
+			unsupported("verif_field: argument is not a pointer boxed into an interface")
+		}
+		pt, ok := pa.Type().Underlying().(*types.Pointer)
+		if !ok {
+			unsupported("verif_field: not a pointer")
+		}
+		stt, ok := pt.Elem().Underlying().(*types.Struct)
+		if !ok {
+			unsupported("verif_field: not a struct pointer")
+		}
+		for i := 0; i < stt.NumFields(); i++ {
+			if stt.Field(i).Name() == args[1].Name {
+				v := e.load(st, Fld(IVal(args[0]), e.W.FieldID(pt.Elem(), i)), stt.Field(i).Type())
+				if name == "verif_field_len" {
+					return SLen(v)
+				}
+				if w, signed, ok := intInfo(stt.Field(i).Type()); ok && w < 64 {
+					if signed {
+						return smt.SignExt(v, 64)
+					}
+					return smt.ZeroExt(v, 64)
+				}
+				return v
+			}
+		}
+		unsupported("verif_field: no field %s", args[1].Name)
+		return nil
 	case "verif_uf_u64":
 		return smt.App("uf|"+args[0].Name, BV64, IVal(args[1]))
 	case "verif_ghost_int":
@@ -844,4 +915,10 @@ func (e *Exec) assumeAllocatedVal(st *State, v *smt.Term, t types.Type) {
 		return
 	}
 	e.assumeAllocated(st, v, t)
+}
+
+// c0Arg: the value boxed into the interface passed as argument i of the current call (if the
+// argument is a MakeInterface instruction).
+func c0Arg(fr *frame, i int) ssa.Value {
+	return fr.curCallArg0
 }
